@@ -148,13 +148,13 @@ def _run_chunk(args):
     data = ("\n".join(lines) + "\n").encode()
     try:
         p = subprocess.run(exe, input=data, stdout=subprocess.PIPE, stderr=subprocess.PIPE, timeout=timeout)
-    except subprocess.TimeoutExpired:
-        return ["TIMEOUT"] * len(lines)
-    out = p.stdout.decode("utf-8", "replace").split("\n")
-    if out and out[-1] == "":
-        out.pop()
+        raw, pad = p.stdout, "DIED(rc=%d)" % p.returncode
+    except subprocess.TimeoutExpired as e:
+        raw, pad = (e.stdout or b""), "TIMEOUT"
+    out = raw.decode("utf-8", "replace").split("\n")
+    out.pop()          # what follows the last newline: empty, or an answer cut off in the middle
     if len(out) < len(lines):
-        out += ["DIED(rc=%d)" % p.returncode] * (len(lines) - len(out))
+        out += [pad] * (len(lines) - len(out))
     return out[:len(lines)]
 
 
